@@ -239,6 +239,55 @@ pub fn gen(tier: &str, rng: &mut Rng, out: &mut Vec<String>) {
         if i % 4 != 0 { let m = 1 + rng.below(3); for _ in 0..m { mutate(rng, &mut c); } }
         out.push(fmt_case(prof, &c));
     }
+    // the script interface between an unlocking and a locking script (decided in the driver by the two-phase model of
+    // Tx::validate's script check): alt-stack carry-over, open conditionals, OP_RETURN in either script, plus grammar scripts
+    // without signature opcodes; one or two inputs, Genesis and pre-genesis rules, outputs marked pre-genesis
+    {
+        let pairs: Vec<(String, String)> = {
+            let mut v: Vec<(String, String)> = [("516b", "6c"), ("51", "6c"), ("516b", "51"), ("526b51", "6c5287"), ("0063", "6851"), ("5163", "6851"), ("516a", "00"),
+                ("51", "6a"), ("00", "91"), ("5151", "9387"), ("00", "516a"), ("516b6c", "-"), ("-", "516b6c"), ("6b", "51"), ("51", "6b51"), ("5167", "51"), ("51", "6751"),
+                ("0051", "7c"), ("51", "00"), ("00", "-"), ("-", "00"), ("516b516b", "6c6c87"), ("51", "6351675168"), ("00", "6351675168")].iter().map(|(a, b)| (a.to_string(), b.to_string())).collect();
+            let sigop = |b: &u8| [0xacu8, 0xad, 0xae, 0xaf, 0xb1, 0xb2].contains(b);
+            let mut tries = 0;
+            while v.len() < (if thorough { 4000 } else { 400 }) && tries < 20_000 { tries += 1;
+                let u = crate::scriptgen::gen_script(rng, 1 + tries % 5).script; let l = crate::scriptgen::gen_script(rng, 1 + tries % 4).script;
+                if u.iter().any(sigop) || l.iter().any(sigop) || u.len() + l.len() > 120 { continue; }
+                v.push((hexd(&u), hexd(&l)));
+            }
+            v
+        };
+        for (k, (u, l)) in pairs.iter().enumerate() {
+            for genesis in [true, false] { for pre in [false, true] {
+                if pre && !genesis { continue; }
+                let mut c = Case { forkid: k % 2 == 0, genesis, lock_time: 0, ins: vec![("0a".to_string(), 0, u.clone())], outs: vec![(5, "-".to_string())],
+                                   utxos: vec![("0a".to_string(), 0, 10, l.clone())], pregen: if pre { vec![0] } else { vec![] } };
+                if k % 3 == 0 { c.ins.push(("0b".to_string(), 1, "51".to_string())); c.utxos.push(("0b".to_string(), 1, 3, "51".to_string())); }
+                out.push(fmt_case(prof, &c));
+            } }
+        }
+    }
+    // enough individually legal amounts to carry an i64 sum past its range: i64::MAX / MAX_SATOSHIS (+0, +1, +2) outputs of
+    // exactly MAX_SATOSHIS each (a total that is only compared after the loop would overflow), in all three validators;
+    // and across several transactions of one payload
+    {
+        let k0 = (I64MAX / MAX_SATOSHIS) as usize;
+        for k in [k0, k0 + 1, k0 + 2] {
+            let outs: Vec<i64> = vec![MAX_SATOSHIS; k];
+            let c = Case { forkid: true, genesis: true, lock_time: 0, ins: vec![("0a".to_string(), 0, "51".to_string())], outs: outs.iter().map(|a| (*a, "-".to_string())).collect(),
+                           utxos: vec![("0a".to_string(), 0, 10, "51".to_string())], pregen: vec![] };
+            out.push(fmt_case(prof, &c));
+            let txs = format!("1/{}", fmt_list(&outs));
+            out.push(format!("c04.blocktxn {} {}", prof, txs));
+            out.push(format!("c04.cmpct {} 0 {}", prof, txs));
+            out.push(format!("c04.cmpct {} 1 {}", prof, txs));
+        }
+        // the same sum spread over two and three transactions (each within range on its own)
+        let half: Vec<i64> = vec![MAX_SATOSHIS; 1];
+        let many = (0..3).map(|_| format!("1/{}", fmt_list(&half))).collect::<Vec<_>>().join(";");
+        out.push(format!("c04.blocktxn {} {}", prof, many));
+        out.push(format!("c04.cmpct {} 0 {}", prof, many));
+        out.push(format!("c04.cmpct {} 1 {}", prof, many));
+    }
     let n_pl = if thorough { 60_000 } else { 3_000 };
     for i in 0..n_pl {
         let txs = payload_txs(rng);
